@@ -17,6 +17,7 @@ import (
 	"strings"
 	"sync"
 	"time"
+	"unicode/utf8"
 
 	"github.com/nikunjy/rules/parser"
 )
@@ -712,7 +713,7 @@ func checkC11(c *Ctx) {
 					sl.synCold = true
 					if cls, txt, ok := c.coldErrText(sl.text); ok && cls == "syn" && txt != got.ErrText {
 						c.violate(Violation{Kind: "history", What: "the error a malformed rule yields depends on what was parsed earlier in the process", Rule: sl.text, RuleHex: hx(sl.text),
-							Ops: fmt.Sprintf("%d other rule texts parsed earlier in this process, then NewEvaluator(%q).Process({})", c.Res.Evaluations, sl.text),
+							Ops:    fmt.Sprintf("%d other rule texts parsed earlier in this process, then NewEvaluator(%q).Process({})", c.Res.Evaluations, sl.text),
 							Demand: "the error of a fresh process: " + txt, Go: got.ErrText})
 						k = steps
 						break
@@ -795,6 +796,22 @@ func checkC11(c *Ctx) {
 	}
 }
 
+// pua: a Go string (bytes) as the valid UTF-8 text the Lean model of C19 works on - every byte outside a valid UTF-8
+// sequence becomes the private-use code point U+F700+byte (Model/NestedError.lean, escChar)
+func pua(s string) string {
+	var sb strings.Builder
+	for i := 0; i < len(s); {
+		r, size := utf8.DecodeRuneInString(s[i:])
+		if r == utf8.RuneError && size == 1 {
+			sb.WriteRune(rune(0xF700 + int(s[i])))
+		} else {
+			sb.WriteString(s[i : i+size])
+		}
+		i += size
+	}
+	return sb.String()
+}
+
 // ---------- C19 ----------
 type wrapErr struct{ inner error }
 
@@ -827,7 +844,7 @@ func safeMarshal(v interface{}) (b []byte, err error) {
 func checkC19(c *Ctx) {
 	c.Res.Rule = "operation sequences on the exported NestedError API: a cause (errors.New, a %w-wrapping error, a custom Unwrap error) wrapped in 1-6 layers, Set with 0-4 key/value pairs per call (keys incl. err and msg; values encodable: ints, floats, strings with quotes/angle brackets/control characters, nested maps, slices, nil; not encodable: channels, funcs, NaN, +Inf, complex) before and after Error(), Error() and Original() repeated; texts compared with the Lean model byte for byte; non-trivial = distinct sequence with >= 2 layers and a Set"
 	n := c.budget(20000, 450000)
-	msgPool := []string{"a", "b", "outer \"q\"", "with <angle> & amp", "tab\there", "nl\nline", "", "ünï", "x: y", "{\"j\":1}", "back\\slash", "\x01ctl", " sep"}
+	msgPool := []string{"a", "b", "bad\xffutf8", "\xed\xa0\x80", "\u2028sep", "outer \"q\"", "with <angle> & amp", "tab\there", "nl\nline", "", "ünï", "x: y", "{\"j\":1}", "back\\slash", "\x01ctl", " sep"}
 	keyPool := []string{"k", "a_b", "Z", "attr_path", "err", "msg", "object_path_operand", "rule_operand", "k2", "0"}
 	valPool := []func() interface{}{func() interface{} { return 1 }, func() interface{} { return "s<>&\"" }, func() interface{} { return 2.5 }, func() interface{} { return nil },
 		func() interface{} { return []int{1, 2} }, func() interface{} { return map[string]interface{}{"b": 1, "a": "x"} }, func() interface{} { return true },
@@ -854,7 +871,7 @@ func checkC19(c *Ctx) {
 		default:
 			leaf = errors.New(text)
 		}
-		fields = append(fields, "LEAF "+hx(text))
+		fields = append(fields, "LEAF "+hx(pua(text)))
 		hist = append(hist, fmt.Sprintf("cause(%q)", text))
 		var cur error = leaf
 		var top *parser.NestedError
@@ -870,7 +887,7 @@ func checkC19(c *Ctx) {
 				cur = top
 				stack = append(stack, top)
 				layers++
-				fields = append(fields, "WRAP "+hx(msg))
+				fields = append(fields, "WRAP "+hx(pua(msg)))
 				hist = append(hist, fmt.Sprintf("wrap(%q)", msg))
 			case roll < 6:
 				vals := parser.ErrVals{}
@@ -937,7 +954,7 @@ func checkC19(c *Ctx) {
 					if f != "" && t == "" && strings.Contains(f, "panicked") {
 						got = append(got, "PANIC")
 					} else {
-						got = append(got, hx(t))
+						got = append(got, hx(pua(t)))
 					}
 					fields = append(fields, fmt.Sprintf("ERRORAT %d", d))
 					hist = append(hist, fmt.Sprintf("layer[-%d].Error()", d))
@@ -948,7 +965,7 @@ func checkC19(c *Ctx) {
 				if f != "" && t == "" && strings.Contains(f, "panicked") {
 					got = append(got, "PANIC")
 				} else {
-					got = append(got, hx(t))
+					got = append(got, hx(pua(t)))
 				}
 				fields = append(fields, "ERROR")
 				hist = append(hist, "Error()")
@@ -963,7 +980,7 @@ func checkC19(c *Ctx) {
 					o = top.Original()
 				}()
 				if o == leaf {
-					got = append(got, "leaf:"+hx(text))
+					got = append(got, "leaf:"+hx(pua(text)))
 				} else if o == nil {
 					got = append(got, "nil")
 				} else {
